@@ -291,6 +291,7 @@ impl World {
             _ => return "bad-op".into(),
         };
         // run it on the real entry point whatever the grammar said
+        let mut err_text = String::new();
         let outcome: String = if k == "dataModel" {
             match catch_unwind(AssertUnwindSafe(|| DataModel::new().update(&text))) {
                 Ok(Ok(())) => "ok".into(),
@@ -310,7 +311,10 @@ impl World {
             match r {
                 Err(_) => "hang".into(),
                 Ok(Ok(())) => "ok".into(),
-                Ok(Err(e)) => format!("err:{}", db_class(&e)),
+                Ok(Err(e)) => {
+                    err_text = format!("{}", e).chars().take(90).collect();
+                    format!("err:{}", db_class(&e))
+                }
             }
         };
         stats.inc(&format!("req.{}.{}", k, outcome));
@@ -324,19 +328,43 @@ impl World {
         if outcome == "err:Sql" && accept {
             // the request went through the grammar and the semantic checks and the storage engine refused the statement
             let selects_json_default = k == "query" && text.split(|c: char| !(c.is_alphanumeric() || c == '_')).any(|t| t == "jd");
-            let sig = if selects_json_default {
+            let sig = if err_text.contains("OFFSET") && Self::skip_without_first(&text) {
+                "skip-without-first"
+            } else if selects_json_default {
                 "json-default-unclosed-ifnull"
             } else if Self::has_keyword_identifier(&text) {
                 "sql-keyword-identifier"
             } else {
                 "engine-rejects-valid-request"
             };
-            self.flag(sig, &format!("{}: {}", k, text.chars().take(160).collect::<String>()));
+            self.flag(sig, &format!("{} [{}]: {}", k, err_text, text.chars().take(160).collect::<String>()));
         }
         if k != "dataModel" {
             self.check_alive(&format!("{} request", k), None).await;
         }
         if accept { "accept".into() } else { "reject".into() }
+    }
+
+    /// some parameter list has a non-zero `skip` and no `first`
+    fn skip_without_first(text: &str) -> bool {
+        let chars: Vec<char> = text.chars().collect();
+        let mut stack: Vec<usize> = vec![];
+        for (i, c) in chars.iter().enumerate() {
+            if *c == '(' {
+                stack.push(i);
+            } else if *c == ')' {
+                if let Some(start) = stack.pop() {
+                    let group: String = chars[start..i].iter().collect();
+                    if let Some(p) = group.find("skip ") {
+                        let arg = group[p + 5..].trim_start();
+                        if !arg.starts_with('0') && !group.contains("first ") {
+                            return true;
+                        }
+                    }
+                }
+            }
+        }
+        false
     }
 
     fn has_keyword_identifier(text: &str) -> bool {
